@@ -13,9 +13,11 @@ import (
 	"os"
 	"sort"
 	"strings"
+	"sync"
 	"testing"
 
 	"github.com/vulcand/oxy/v2/buffer"
+	"github.com/vulcand/oxy/v2/verifharness/sim"
 	"github.com/vulcand/oxy/v2/verifharness/vstat"
 	"pgregory.net/rapid"
 )
@@ -277,6 +279,17 @@ func makeHandlers(t *rapid.T, c *caseSpec) (http.Handler, *result) {
 	return outer, res
 }
 
+var (
+	frontOnce sync.Once
+	front     *sim.Front
+	frontErr  error
+)
+
+func frontServer() (*sim.Front, error) {
+	frontOnce.Do(func() { front, frontErr = sim.NewFront() })
+	return front, frontErr
+}
+
 func firstDiff(a, b []byte) int {
 	n := len(a)
 	if len(b) < n {
@@ -371,9 +384,12 @@ func TestC06_RealServer(t *testing.T) {
 	rapid.Check(t, func(t *rapid.T) {
 		c := genCase(t, true)
 		h, res := makeHandlers(t, c)
-		srv := httptest.NewServer(h)
-		defer srv.Close()
-		conn, err := net.Dial("tcp", srv.Listener.Addr().String())
+		srv, err := frontServer()
+		if err != nil {
+			t.Fatalf("%v", err)
+		}
+		srv.Set(h)
+		conn, err := net.Dial("tcp", srv.Addr())
 		if err != nil {
 			t.Fatalf("INFRA: dial: %v", err)
 		}
